@@ -115,6 +115,21 @@ impl<'a> CodeBody<'a> {
                 Some(Terminator::Return(_) | Terminator::Unreachable) | None => {}
             }
         }
+        // a non-empty block is also entered through the unconditional "br" of a live
+        // predecessor, which wouldn't be turned into "return".
+        let mut entered = reachable.clone();
+        let mut changed = true;
+        while changed {
+            changed = false;
+            for (i, b) in self.basic_blocks.iter().enumerate() {
+                if let Some(Terminator::Br(l)) = &b.terminator {
+                    if entered[i] && !entered[l.0] {
+                        entered[l.0] = true;
+                        changed = true;
+                    }
+                }
+            }
+        }
 
         // turn "br" into "return" while distance from the start_ref block is 0, where
         // distance = completion_value + statements.len()
@@ -125,7 +140,7 @@ impl<'a> CodeBody<'a> {
             if let Some(a) = b.completion_value.take() {
                 b.terminator = Some(Terminator::Return(a));
             } else {
-                b.terminator = if reachable[i] {
+                b.terminator = if reachable[i] || (entered[i] && !b.statements.is_empty()) {
                     let end = byte_range.end; // implicit return should be at end
                     Some(Terminator::Return(Operand::Void(Void::new(end..end))))
                 } else {
